@@ -189,7 +189,7 @@ func genExt4History(r *core.Rng, tier string, idx int, wide bool) *core.Trace {
 			ids := []int64{0, 1, 1000, 65535, 65536, 1<<32 - 2, -1}
 			t.Ops = append(t.Ops, core.Op{K: "chown", P: pickFile(), A: ids[r.Intn(len(ids))], B: ids[r.Intn(len(ids))]})
 		case 8:
-			ts := []int64{0, 1, -1, 86400 * 365 * 30, 2147483647, 2147483648, 4102444800, -2147483648, 1700000000}
+			ts := []int64{0, 1, -1, 86400 * 365 * 30, 2147483647, 2147483648, 4102444800, -2147483648, 1700000000, 6442450944, 8589934591, 8589934592, 10737418240, 11811160064, 12884901887, 12884901888, 15032385535} // (up to 2446: all four values of the two epoch bits, around every boundary)
 			t.Ops = append(t.Ops, core.Op{K: "chtimes", P: pickFile(), A: ts[r.Intn(len(ts))], B: ts[r.Intn(len(ts))], C: ts[r.Intn(len(ts))], D: r.Range(0, 999999999)})
 		case 9:
 			t.Ops = append(t.Ops, core.Op{K: "reopen", A: int64(r.Intn(2))})
